@@ -166,6 +166,10 @@ func C09(c *core.Ctx) {
 	checkMapRanges(c, "R8/map-order", "pkg/updown") // output that varies from run to run cannot be byte-identical across the four input combinations
 	c09Inputs(c)
 	c09Order(c)
+	// the four input combinations give the same output: none of them waits for a stage that is itself blocked on an error
+	// or a full channel nobody drains (the wait rule of C18, on the conversion stages of pkg/updown)
+	nsel, nbare := checkWaits(c, facts(c), "R9/B3", "pkg/updown")
+	c.Floor("R9/B3/waits", nsel+nbare, 4)
 }
 
 // c09Inputs: the FASTA and CSV input paths produce the same records (also part of C08: what the binning sees).
